@@ -2,8 +2,9 @@ package xmaps
 
 //verif:pkg ./xmaps
 //verif:case C19 quick VerifSetAlgebra 0..2 0..2 0..1
-//verif:case C19 thorough VerifSetAlgebra 0..2 0..2 2
-//verif:case C19 thorough VerifSetAlgebra 3 0..2 0..1
+//verif:case C19 thorough VerifSetAlgebra 0..1 0..2 2
+//verif:case C19 thorough VerifSetAlgebra 2 0..1 2
+//verif:case C19 thorough VerifSetAlgebra 3 0..1 0..1
 //verif:case C19 quick VerifMapHelpers 0..3
 //verif:case C19 quick VerifSetMethods 0..3
 
